@@ -211,4 +211,117 @@ theorem connect_inv {s : Server} (h : SyncInv s) (hw : WF s) (conn : Nat) (k : C
     have kp := (admitClient_wf s1 i conn k w1 hi hid).2
     exact ⟨a, ⟨l.parked, l.parkedEarly⟩, kp.pending, kp.connOf⟩
 
+/-! ### `clearExpiredClients` -/
+
+theorem unsubscribeClient_caps (s : Server) (i : Nat) : (unsubscribeClient s i).caps = s.caps := by
+  unfold unsubscribeClient
+  extract_lets +onlyGivenNames c s1
+  split
+  · rfl
+  · obtain ⟨t, n, he, _⟩ := unsubFold_spec c.id c.subs s1
+    rw [he]
+    rfl
+
+theorem cleanup_getObj_ne (s : Server) (i k : Nat) (h : k ≠ i) :
+    getObj (unsubscribeClient (clearInflights s i) i) k = getObj s k := by
+  rw [getObj_of_objs_eq (unsubscribeClient_objs (clearInflights s i) i) k,
+    getObj_setObj_ne (clearInflights s i) i k _ h]
+  unfold clearInflights
+  exact getObj_setObj_ne s i k _ h
+
+theorem sessionDue_stopped {caps : Caps} {c : Client} {dt : Int} (h : sessionDue caps c dt = true) :
+    c.stopped = true := by
+  unfold sessionDue at h
+  rw [Bool.and_eq_true] at h
+  exact h.1
+
+/-- one iteration of `clearExpiredClients` -/
+def expireStep (dt : Int) (acc : Server × List Out) (e : Str × Nat) : Server × List Out :=
+  let c := getObj acc.1 e.2
+  if sessionDue acc.1.caps c dt then
+    let s := clearInflights acc.1 e.2
+    let s := unsubscribeClient s e.2
+    ({ s with clients := assocDel s.clients e.1 }, acc.2 ++ [.event s!"expired({hexStr c.id})"])
+  else acc
+
+theorem expireStep_due (dt : Int) (acc : Server × List Out) (e : Str × Nat)
+    (h : sessionDue acc.1.caps (getObj acc.1 e.2) dt = true) :
+    (expireStep dt acc e).1 = { unsubscribeClient (clearInflights acc.1 e.2) e.2 with
+      clients := assocDel (unsubscribeClient (clearInflights acc.1 e.2) e.2).clients e.1 } := by
+  unfold expireStep
+  simp only [h, if_true]
+
+theorem expireStep_not (dt : Int) (acc : Server × List Out) (e : Str × Nat)
+    (h : ¬ sessionDue acc.1.caps (getObj acc.1 e.2) dt = true) : expireStep dt acc e = acc := by
+  unfold expireStep
+  simp only [h, Bool.false_eq_true, if_false]
+
+/-- the loop of `clearExpiredClients` over the rest `l` of the Clients map -/
+theorem tickClients_loop (s : Server) (dt : Int)
+    (hR : ∀ e ∈ s.clients, sessionDue s.caps (getObj s e.2) dt = true → e.2 ∉ s.parked ∧ e.2 ∉ s.parkedEarly)
+    (l : List (Str × Nat)) (acc : Server × List Out)
+    (ha : SyncInv acc.1) (hwa : WF acc.1) (hl : Lst s acc.1) (hcaps : acc.1.caps = s.caps)
+    (hsub : ∀ e ∈ l, e ∈ s.clients ∧ e ∈ acc.1.clients ∧ getObj acc.1 e.2 = getObj s e.2)
+    (hnd : (l.map (·.1)).Nodup) :
+    SyncInv (l.foldl (expireStep dt) acc).1 := by
+  induction l generalizing acc with
+  | nil => exact ha
+  | cons e0 rest ih =>
+    rw [List.foldl_cons]
+    rw [List.map_cons, List.nodup_cons] at hnd
+    obtain ⟨h0s, h0a, h0o⟩ := hsub e0 List.mem_cons_self
+    by_cases hdue : sessionDue acc.1.caps (getObj acc.1 e0.2) dt = true
+    · have hstep := expireStep_due dt acc e0 hdue
+      obtain ⟨hi, hid⟩ := hwa.clients_valid e0.1 e0.2 h0a
+      have hreg0 : assocGet acc.1.clients e0.1 = some e0.2 := assocGet_of_mem_nodup _ _ _ hwa.clients_nodup h0a
+      have hreg : assocGet acc.1.clients (getObj acc.1 e0.2).id = some e0.2 := by rw [hid]; exact hreg0
+      have hdue' : sessionDue s.caps (getObj s e0.2) dt = true := by rw [← hcaps, ← h0o]; exact hdue
+      obtain ⟨hnp, hne⟩ := hR e0 h0s hdue'
+      have q3 := clearInflights_quiet acc.1 e0.2
+      have l4 := unsubscribeClient_lst (clearInflights acc.1 e0.2) e0.2
+      have hto : (getObj (clearInflights acc.1 e0.2) e0.2).takenOver = false := by
+        rw [(q3.obj e0.2).takenOver]; exact ha.regTO e0.1 e0.2 hreg0
+      have hcl : (unsubscribeClient (clearInflights acc.1 e0.2) e0.2).clients = acc.1.clients :=
+        (unsubscribeClient_own _ e0.2 hto).clients.trans q3.clients
+      apply ih
+      · rw [hstep]
+        have := ha.cleanup hwa e0.2 hi (sessionDue_stopped hdue) (by rw [hl.parked]; exact hnp)
+          (by rw [hl.parkedEarly]; exact hne) hreg
+        rw [hid] at this
+        exact this
+      · rw [hstep]
+        exact (((hwa.of_good (clearInflights_good acc.1 e0.2)).of_good (unsubscribeClient_good _ e0.2)).of_good
+          ((Good.refl _).delClient _))
+      · rw [hstep]
+        exact ⟨(l4.parked.trans q3.parked).trans hl.parked, (l4.parkedEarly.trans q3.parkedEarly).trans hl.parkedEarly⟩
+      · rw [hstep]
+        show (unsubscribeClient (clearInflights acc.1 e0.2) e0.2).caps = s.caps
+        rw [unsubscribeClient_caps, q3.caps]; exact hcaps
+      · intro e he
+        obtain ⟨hes, hea, heo⟩ := hsub e (List.mem_cons_of_mem _ he)
+        have hk : e.1 ≠ e0.1 := fun x => hnd.1 (x ▸ List.mem_map.mpr ⟨e, he, rfl⟩)
+        have hobj : e.2 ≠ e0.2 := by
+          intro x
+          have a := (hwa.clients_valid e.1 e.2 hea).2
+          rw [x] at a
+          exact hk (a.symm.trans hid)
+        rw [hstep]
+        refine ⟨hes, ?_, ?_⟩
+        · show e ∈ assocDel (unsubscribeClient (clearInflights acc.1 e0.2) e0.2).clients e0.1
+          rw [hcl]
+          unfold assocDel
+          exact List.mem_filter.mpr ⟨hea, by simpa using hk⟩
+        · show getObj (unsubscribeClient (clearInflights acc.1 e0.2) e0.2) e.2 = getObj s e.2
+          rw [cleanup_getObj_ne acc.1 e0.2 e.2 hobj]; exact heo
+      · exact hnd.2
+    · rw [expireStep_not dt acc e0 hdue]
+      exact ih acc ha hwa hl hcaps (fun e he => hsub e (List.mem_cons_of_mem _ he)) hnd.2
+
+theorem tickClients_inv {s : Server} (h : SyncInv s) (hw : WF s) (dt : Int)
+    (hR : ∀ e ∈ s.clients, sessionDue s.caps (getObj s e.2) dt = true → e.2 ∉ s.parked ∧ e.2 ∉ s.parkedEarly) :
+    SyncInv (tickClients s dt).1 := by
+  have : tickClients s dt = s.clients.foldl (expireStep dt) (s, []) := rfl
+  rw [this]
+  exact tickClients_loop s dt hR s.clients (s, []) h hw (Lst.refl s) rfl (fun e he => ⟨he, he, rfl⟩) hw.clients_nodup
+
 end Mochi.Broker
